@@ -16,6 +16,8 @@ import (
 	"github.com/gopher-fleece/gleece/v2/cmd"
 	"github.com/gopher-fleece/gleece/v2/cmd/arguments"
 	"github.com/gopher-fleece/gleece/v2/core/pipeline"
+	"github.com/gopher-fleece/gleece/v2/definitions"
+	"github.com/gopher-fleece/gleece/v2/core/validators/diagnostics"
 )
 
 func genInto(t *testing.T, dir string, mutate func(cfg map[string]any)) (routes, spec []byte, err error) {
@@ -161,6 +163,7 @@ var wantOps = []wantOp{
 	{"put", "/gamma/receipts", "FileReceipt", "Gamma", false, "schemeD[read]", nil, "required", "200", nil},
 	{"post", "/gamma/widgets", "CreateWidget", "Gamma", false, "schemeD[read]", nil, "required", "200", []string{"500"}},
 	{"get", "/gamma/widgets/names", "ListWidgetNames", "Gamma", false, "schemeD[read]", []string{"colour:query:true"}, "", "200", nil},
+	{"get", "/gamma/widgets/search", "SearchWidgets", "Gamma", false, "schemeD[read]", []string{"tenant:query:true", "region:query:true", "zone:query:true", "x-limit:header:true"}, "", "200", nil},
 	{"post", "/gamma/receipts/{serial}", "IssueReceipt", "Gamma", false, "schemeD[read]", []string{"serial:path:true"}, "", "201", []string{"201"}},
 }
 
@@ -677,4 +680,70 @@ func firstN(s string, n int) string {
 		return s[:n]
 	}
 	return s
+}
+
+
+// C18: every diagnostic (warnings included) names a file that exists and a range that lies inside that file.
+func TestVerifC18Ranges(t *testing.T) {
+	entries, _ := os.ReadDir("cases")
+	globs := [][]string{{"./ctl/alpha*.go", "./ctl/beta.go", "./ctl/gamma.go"}}
+	for _, e := range entries {
+		if e.IsDir() {
+			globs = append(globs, []string{"./cases/" + e.Name() + "/*.go"})
+		}
+	}
+	failed := false
+	n := 0
+	for _, g := range globs {
+		raw, _ := os.ReadFile("gleece.config.json")
+		var cfg definitions.GleeceConfig
+		if err := json.Unmarshal(raw, &cfg); err != nil {
+			t.Fatal(err)
+		}
+		cfg.CommonConfig.ControllerGlobs = g
+		pipe, err := pipeline.NewGleecePipeline(&cfg)
+		if err != nil {
+			continue
+		}
+		if err := pipe.GenerateGraph(); err != nil {
+			continue
+		}
+		diags, err := pipe.Validate()
+		if err != nil {
+			continue
+		}
+		var walk func(d *diagnostics.EntityDiagnostic)
+		walk = func(d *diagnostics.EntityDiagnostic) {
+			for _, rd := range d.Diagnostics {
+				n++
+				src, ferr := os.ReadFile(rd.FilePath)
+				if ferr != nil {
+					fmt.Printf("VERIF-FAIL: class=C18-file-missing diagnostic %q of %s names file %q which cannot be read\n", rd.Code, d.EntityName, rd.FilePath)
+					failed = true
+					continue
+				}
+				lines := strings.Split(string(src), "\n")
+				r := rd.Range
+				ok := r.StartLine >= 0 && r.StartLine <= r.EndLine && r.EndLine < len(lines) && r.StartCol >= 0 && r.EndCol >= 0 &&
+					r.StartCol <= len(lines[r.StartLine]) && r.EndCol <= len(lines[r.EndLine]) && (r.StartLine < r.EndLine || r.StartCol <= r.EndCol)
+				if !ok {
+					fmt.Printf("VERIF-FAIL: class=C18-range-outside-file diagnostic %q of %s (%s): range %d:%d-%d:%d does not lie inside %s (%d lines)\n", rd.Code, d.EntityKind, d.EntityName, r.StartLine, r.StartCol, r.EndLine, r.EndCol, rd.FilePath, len(lines))
+					failed = true
+				}
+			}
+			for _, c := range d.Children {
+				if c != nil {
+					walk(c)
+				}
+			}
+		}
+		for i := range diags {
+			walk(&diags[i])
+		}
+	}
+	fmt.Printf("VERIF-CASES: %d (diagnostics of the fixture project and the corpus, warnings included)\n", n)
+	fmt.Println("VERIF-DONE")
+	if failed {
+		t.Fail()
+	}
 }
